@@ -35,6 +35,7 @@ MODULES = {
             "r500": {"module": "MC_Ribbon", "cfg": "Graph_Ribbon_500.cfg", "target": "ribbon500"},
         },
     },
+    "glide": {"trace_spec": "Trace_Glide", "trace_cfg": "Trace_Glide.cfg", "graphs": {}},
     "lfo": {"trace_spec": "Trace_Lfo", "trace_cfg": "Trace_Lfo.cfg", "graphs": {}},
 }
 
@@ -115,6 +116,15 @@ _R_GR = [("ribbon", "r100", QT), ("ribbon", "r500", QT)]
 PROPS.update({
     "C15": {"module": "ribbon", "mc": _R_MC, "graphs": _R_GR, "traces": [("ribbon", "press", QT)]},
     "C16": {"module": "ribbon", "mc": _R_MC, "graphs": _R_GR, "traces": [("ribbon", "press", QT), ("ribbon", "pair", QT)]},
+})
+
+_G_MC = [("glide", "MC_Glide", "MC_Glide.cfg", QT)]
+_G_TR = [("glide", "sched", QT), ("glide", "steps", QT), ("glide", "deadband", QT)]
+PROPS.update({
+    "C13": {"module": "glide", "mc": _G_MC, "traces": _G_TR,
+            "rule": "distinct (sample rate, requested time) settings exercised; every logged sample evaluates the "
+                    "one-step hull, range, approach and crossing predicates"},
+    "C14": {"module": "glide", "mc": _G_MC, "traces": _G_TR},
 })
 
 HOOK_COMMITS = ["36838b7"]
